@@ -90,18 +90,21 @@ pub fn c04() -> Outcome {
     } }
     // (c) dependency graphs: chains in every insertion order, cycles and dangling references fail cleanly
     let perms: Vec<Vec<u64>> = vec![vec![6, 7, 8], vec![6, 8, 7], vec![7, 6, 8], vec![7, 8, 6], vec![8, 6, 7], vec![8, 7, 6]];
-    for (pi, p) in perms.iter().enumerate() { for kind in 0..4 {
+    for (pi, p) in perms.iter().enumerate() { for kind in 0..5 {
         n += 1; d.insert((2, pi, kind, 0, 0));
         let dvs = [1u64, 6, 7, 8].iter().map(|&i| dv(i, Kind::Continuous, None)).collect();
         let mut i = inst(dvs, f_of(F::Linear(lin(&[(1, 1.0)], 0.0))), vec![]);
         // 6 := x1 + 1 ; 7 := 2*x6 ; 8 := x6*x7   (kind 0);  kind 1: cycle 6 -> 8 -> 7 -> 6;  kind 2: 8 refers to undefined 99; kind 3: self-cycle
         let defs: HashMap<u64, Function> = [
-            (6u64, if kind == 1 { f_of(F::Linear(lin(&[(8, 1.0)], 1.0))) } else if kind == 3 { f_of(F::Linear(lin(&[(6, 1.0)], 1.0))) } else { f_of(F::Linear(lin(&[(1, 1.0)], 1.0))) }),
+            (6u64, if kind == 4 { f_of(F::Linear(lin(&[(1, 1.0)], 1.0))) } else if kind == 1 { f_of(F::Linear(lin(&[(8, 1.0)], 1.0))) } else if kind == 3 { f_of(F::Linear(lin(&[(6, 1.0)], 1.0))) } else { f_of(F::Linear(lin(&[(1, 1.0)], 1.0))) }),
             (7, f_of(F::Linear(lin(&[(6, 2.0)], 0.0)))),
-            (8, if kind == 2 { f_of(F::Linear(lin(&[(99, 1.0)], 0.0))) } else { f_of(F::Quadratic(quad(&[(6, 7, 1.0)], None))) }),
+            (8, if kind == 4 { f_of(F::Linear(lin(&[(8, 1.0), (6, 1.0)], 0.0))) } else if kind == 2 { f_of(F::Linear(lin(&[(99, 1.0)], 0.0))) } else { f_of(F::Quadratic(quad(&[(6, 7, 1.0)], None))) }),
         ].into_iter().collect();
         for id in p { i.decision_variable_dependency.insert(*id, defs[id].clone()); }
-        let r = i.evaluate(&state(&[(1, 2.0)]));
+        let (tx, rx_) = std::sync::mpsc::channel();
+        let i2 = i.clone();
+        std::thread::spawn(move || { let _ = tx.send(i2.evaluate(&state(&[(1, 2.0)])).map_err(|e| e.to_string())); });
+        let r = match rx_.recv_timeout(std::time::Duration::from_secs(10)) { Ok(r) => r, Err(_) => fail!(n, d, "Instance::evaluate did not return within 10 s (hang) on dependencies kind {kind} (0 chain, 1 cycle 6->8->7->6, 2 dangling reference, 3 self-cycle), insertion order {p:?}") };
         match (kind, r) {
             (0, Ok((sol, _))) => { let e = sol.state.unwrap().entries; if e.get(&6) != Some(&3.0) || e.get(&7) != Some(&6.0) || e.get(&8) != Some(&18.0) { fail!(n, d, "dependency chain 6:=x1+1, 7:=2*x6, 8:=x6*x7 at x1=2 (insertion order {p:?}) reports {e:?}, expected 3, 6, 18"); } }
             (0, Err(e)) => fail!(n, d, "acyclic dependency chain failed: {e}"),
@@ -233,16 +236,17 @@ pub fn c11() -> Outcome {
         f_of(F::Quadratic(quad(&[(1, 2, 3.0), (2, 1, -1.0), (2, 2, 0.5), (3, 3, -2.0)], Some(lin(&[(3, 1.0), (1, 0.25)], 2.0))))),
         f_of(F::Quadratic(quad(&[(1, 2, 3.0), (2, 1, -3.0), (4, 1, 1.0)], None))),                                        // cancelling terms
         f_of(F::Polynomial(poly(&[(&[1, 1, 2], 2.0), (&[], 1.0), (&[2, 1, 1], -1.0), (&[3], 0.5), (&[2, 1], 4.0)]))),   // degree 3 text, two distinct variables
+        f_of(F::Polynomial(poly(&[(&[], 1.0), (&[1, 2], 2.0), (&[], 0.5), (&[2], -1.0), (&[], -3.0)]))),                         // several constant monomials
         f_of(F::Polynomial(poly(&[(&[1, 2, 3], 2.0), (&[3, 3, 3, 3], 0.5), (&[4, 1, 4, 2], -1.0), (&[1, 2], -2.0), (&[2, 1, 1], 2.0)]))), // three distinct variables
     ];
     for (oi, o) in objs.iter().enumerate() {
         n += 1; d.insert((oi, 0));
         let i = inst((1..=4u64).map(|k| dv(k, Kind::Binary, None)).collect(), o.clone(), vec![]);
-        if oi == 4 { note(|| format!("as_pubo_format/as_qubo_format on objective {o:?} over binaries 1..4, all 16 assignments")); }
+        if oi == 5 { note(|| format!("as_pubo_format/as_qubo_format on objective {o:?} over binaries 1..4, all 16 assignments")); }
         let pubo = match i.as_pubo_format() { Ok(p) => p, Err(e) => fail!(n, d, "as_pubo_format refused a valid binary minimisation instance: {e}") };
         let pubo: Vec<(Vec<u64>, f64)> = pubo.iter().map(|(k, v)| (k.iter().cloned().collect::<Vec<u64>>(), *v)).collect();
         for (k, v) in &pubo { if *v == 0.0 { fail!(n, d, "PUBO stores a zero coefficient for {k:?}"); } if k.windows(2).any(|w| w[0] >= w[1]) { fail!(n, d, "PUBO key {k:?} is not a duplicate-free sorted set"); } }
-        let distinct3 = oi == 5;
+        let distinct3 = oi == 6;
         let qubo = i.as_qubo_format();
         match (&qubo, distinct3) { (Ok(_), true) => fail!(n, d, "as_qubo_format accepted a term with three distinct variables: {o:?}"), (Err(e), false) => fail!(n, d, "as_qubo_format refused an objective with at most two distinct variables per term: {e}"), _ => {} }
         if let Ok((q, _)) = &qubo { for (k, v) in q.iter() { if *v == 0.0 || k.0 > k.1 { fail!(n, d, "QUBO entry {k:?} -> {v} is zero or not canonical (i<=j)"); } } }
@@ -379,7 +383,9 @@ pub fn c15() -> Outcome {
         ss.sense = sense as i32;
         let ids = [10u64, 4, 7, 30];
         let mut sv = v1::SampledValues::default();
-        for (k, id) in ids.iter().enumerate() { let mut e = v1::sampled_values::SampledValuesEntry::default(); e.value = objs[k]; e.ids = vec![*id]; sv.entries.push(e); }
+        // compressed representation: samples with an equal value share one entry; the id list of an entry is in insertion order (not ascending)
+        if pat % 2 == 0 { for (k, id) in ids.iter().enumerate() { if let Some(e) = sv.entries.iter_mut().find(|e| e.value == objs[k]) { e.ids.push(*id); } else { let mut e = v1::sampled_values::SampledValuesEntry::default(); e.value = objs[k]; e.ids = vec![*id]; sv.entries.push(e); } } }
+        else { for (k, id) in ids.iter().enumerate() { let mut e = v1::sampled_values::SampledValuesEntry::default(); e.value = objs[k]; e.ids = vec![*id]; sv.entries.push(e); } }
         ss.objectives = Some(sv);
         let feas_all: HashMap<u64, bool> = ids.iter().enumerate().map(|(k, id)| (*id, pat >> k & 1 == 1)).collect();
         let feas_rel: HashMap<u64, bool> = ids.iter().enumerate().map(|(k, id)| (*id, (pat >> k & 1 == 1) || (pat >> (4 + k) & 1 == 1))).collect();
